@@ -228,16 +228,16 @@ type tcase struct {
 	Poison   string            `json:"poison,omitempty"`
 	Edit     string            `json:"edit,omitempty"`
 
-	steps []string // Coq step terms
-	obs   []string // Coq obs terms
-	trail []map[string]any
-	defs  [][]string // declared lists built so far
-	sets  [][]item   // every output set its command was expected to produce
-	lastOK, everBuilt bool
-	poisonLive        bool // the cache holds a tampered entry for the current definition
-	rng   *lib.Rng
+	steps               []string // Coq step terms
+	obs                 []string // Coq obs terms
+	trail               []map[string]any
+	defs                [][]string // declared lists built so far
+	sets                [][]item   // every output set its command was expected to produce
+	lastOK, everBuilt   bool
+	poisonLive          bool // the cache holds a tampered entry for the current definition
+	rng                 *lib.Rng
 	checkTerm, checkKey string
-	checkJS   any
+	checkJS             any
 }
 
 // eff: the hashes the build sees. The parser (asp addStrings) drops empty strings from every string
@@ -556,21 +556,22 @@ func butWas(text, label string) []string {
 }
 
 type episode struct {
-	Index int      `json:"repo"`
-	Cfg   config   `json:"config"`
-	Cases []*tcase `json:"targets"`
-	notes []string
-	fatal string
-	fails []lib.Failing
-	nOracle int
+	Index      int      `json:"repo"`
+	Cfg        config   `json:"config"`
+	Cases      []*tcase `json:"targets"`
+	notes      []string
+	fatal      string
+	fails      []lib.Failing
+	nOracle    int
 	unreported int
-	hists [][2]string
+	hists      [][2]string
 }
 
-func (ep *episode) Fail(class, what string, in any) { ep.fails = append(ep.fails, lib.Failing{Class: class, What: what, Input: in}) }
-func (ep *episode) Oracle()                          { ep.nOracle++ }
-func (ep *episode) Hist(a, b string)                 { ep.hists = append(ep.hists, [2]string{a, b}) }
-
+func (ep *episode) Fail(class, what string, in any) {
+	ep.fails = append(ep.fails, lib.Failing{Class: class, What: what, Input: in})
+}
+func (ep *episode) Oracle()          { ep.nOracle++ }
+func (ep *episode) Hist(a, b string) { ep.hists = append(ep.hists, [2]string{a, b}) }
 
 func genEpisode(r *lib.Rng, idx, k int) *episode {
 	ep := &episode{Index: idx, Cfg: configs[idx%len(configs)]}
@@ -719,6 +720,13 @@ func (ep *episode) run(c *lib.Ctx, base string) {
 			for _, t := range ep.Cases {
 				before := fmt.Sprint(strings.Join(t.eff(), ""), "#", t.SrcVer)
 				ep.applyEdit(c, t)
+				if t.Edit == "src" && t.SrcVer > 0 {
+					// replace the source file (new inode) instead of rewriting it in place: a filegroup output is a hard
+					// link to its source, so an in-place edit also edits plz-out (and the filegroup then counts as
+					// unchanged and is not verified - one more instance of filegroup-unchanged-output-not-checked,
+					// outside the model, which has no hard links between sources and outputs)
+					os.Remove(filepath.Join(repo.Dir, t.Pkg, t.Srcs[0]))
+				}
 				if fmt.Sprint(strings.Join(t.eff(), ""), "#", t.SrcVer) != before {
 					t.poisonLive = false // another rule hash, another cache key
 				}
@@ -730,8 +738,8 @@ func (ep *episode) run(c *lib.Ctx, base string) {
 		// running its command: that target is neither reported failed nor built. This is a scheduling matter
 		// (C04/C05), not a hash matter; the step is repeated (a repeated build of an unchanged tree is the same
 		// step: success -> no-op, failure -> the same failure) and "ran" accumulates.
-		for attempt := 0; attempt < 3 && o.exit != 0; attempt++ {
-			unreported := false
+		for attempt := 0; attempt < 3 && (o.exit != 0 || len(o.failed) != 0); attempt++ {
+			unreported := o.exit < 0 || len(o.failed) == 0 // timed out, or failed without naming a target
 			for _, t := range ep.Cases {
 				if !o.failed[t.Label] && t.readDisk(repo) == nil {
 					unreported = true
@@ -1091,7 +1099,7 @@ func main() {
 		base := e2e.Scratch("c35")
 		defer os.RemoveAll(base)
 		corpus(c, base)
-		nrepos := c.Scale(12, 200)
+		nrepos := c.Scale(12, 120)
 		eps := make([]*episode, nrepos)
 		for i := range eps {
 			eps[i] = genEpisode(c.Rng.Fork(), i, 8)
